@@ -116,6 +116,16 @@ def r01_1(res, programs, rid="R01.1"):
                 else:
                     kname = callee.rsplit("::", 1)[1]
                     rv = next((why for (cs, kn), why in REVIEWED_DISCARDS.items() if kn == kname and f["p"].endswith(cs)), None)
+                    if not rv and f.get("vis") != "public":
+                        # helper extracted from reviewed functions: every caller of this private function has a
+                        # reviewed discard of the same kernel
+                        from .c17b import _callers
+                        idx, taken = _callers(P)
+                        cs_ = idx.get(f["p"], [])
+                        if cs_ and f["p"] not in taken:
+                            whys = [next((why for (cs, kn), why in REVIEWED_DISCARDS.items() if kn == kname and g["p"].endswith(cs)), None) for (g, _b, _t) in cs_]
+                            if all(whys):
+                                rv = "extracted helper; every caller is a reviewed site (%s)" % whys[0]
                     if rv:
                         res.ok(rid, cfgname, key + "|reviewed-discard", nontrivial=False)
                         res.assume("%s: %s discards the result of %s — reviewed: %s" % (rid, f["p"], kname, rv))
